@@ -248,6 +248,36 @@ fn p01(p: &mut ProbeReport, r: &mut Rng, budget: usize) {
         p.eval(&format!("{}|{}", t, q), true);
         if let Err(e) = guarded(|| search_results(&st, q)) { p.fail(format!("search panicked: {}", e), scn.case("c01-corpus", vec![Op::Search(q.to_string())])); }
     }
+    // the top-level API with limits walking up and down around the result buffer's capacity: every sequence of three
+    // limits over a small set, with and without a search that fills the buffer in between
+    {
+        let limits = [0usize, 5, 10, 11, 40, 55, 60, 95, 100];
+        let id = 730_000usize;
+        let mut n = 0usize;
+        'walk: for a in limits { for b in limits { for c in limits { for fill in [false, true] {
+            n += 1;
+            let mut ops = vec![Op::RCreate(id, "none".into())];
+            for i in 0..30 { ops.push(Op::RAdd(id, i + 1, i, format!("lamp {}", i))); }
+            for l in [a, b, c] { ops.push(Op::RLimit(id, l)); if fill { ops.push(Op::RSearch(id, "lamp".into())); } }
+            ops.push(Op::RSearch(id, "lam".into()));
+            let res = guarded(|| {
+                core::create_store(id, make_lang("none"));
+                for i in 0..30 { core::add_record(id, i + 1, &format!("lamp {}", i), i); }
+                for l in [a, b, c] { core::set_limit(id, l); if fill { core::run_search(id, "lamp"); } }
+                core::run_search(id, "lam");
+                core::using_results(id, |rs| rs.len())
+            });
+            let _ = guarded(|| core::destroy_store(id));
+            p.eval(&format!("limit-walk|{}|{}|{}|{}", a, b, c, fill), true);
+            match res {
+                Err(e) => { p.fail(format!("top-level API panicked while the limit walked {} -> {} -> {}: {}", a, b, c, e), Case { name: "c01-limit-walk".into(), lang: "none".into(), stream: "probe", ops }); break 'walk; }
+                Ok(k) if k != c.min(30) => { p.fail(format!("limit walked {} -> {} -> {}: {} hits instead of {}", a, b, c, k, c.min(30)), Case { name: "c01-limit-walk".into(), lang: "none".into(), stream: "probe", ops }); break 'walk; }
+                _ => {}
+            }
+        } } } }
+        p.notes.insert("limit_walks".into(), n);
+    }
+    let budget = budget + p.evaluations;
     let mut i = 0;
     while p.evaluations < budget {
         let code = LANGS[i % LANGS.len()]; i += 1;
@@ -1082,10 +1112,17 @@ fn p09(p: &mut ProbeReport, r: &mut Rng, budget: usize) {
             let gap = *r.pick(&["-", " ", "  ", " - ", "'", "--", "\u{1f}", "\u{7f}", "\u{96}", "\u{2013}", "\u{2026}"]);
             scn.recs.push((99, format!("{}{}{}", a, gap, b), 3));
         }
+        // every seventh store ends with a title of 34–45 words, asked for one of its words (often a late one)
+        let mut late: Option<String> = None;
+        if i % 7 == 0 {
+            let ws: Vec<String> = (0..r.range(34, 45)).map(|k| format!("{}{}", (0..r.range(3, 6)).map(|_| *r.pick(&v.letters)).collect::<String>(), k)).collect();
+            late = Some(ws[*r.pick(&[0usize, 5, 30, 31, 32, 33, ws.len() - 1])].clone());
+            scn.recs.push((98, ws.join(" "), 2));
+        }
         if scn.recs.iter().any(|e| has_sentinel(&e.1)) { continue; }
         let mut st = scn.build();
         let t0 = scn.recs.last().unwrap().1.clone();
-        let q = match r.below(6) { 0 => String::new(), 1 => " - ".to_string(), _ => query_for(&v, r, &t0) };
+        let q = match (late, r.below(6)) { (Some(w), _) => w, (None, 0) => String::new(), (None, 1) => " - ".to_string(), _ => query_for(&v, r, &t0) };
         let qwords = tokenize_query(&q, &lang).words.len();
         let hits = search_marked(&mut st, &q);
         for (id, title) in &hits {
@@ -1514,7 +1551,15 @@ fn p13(p: &mut ProbeReport, r: &mut Rng, budget: usize) {
             let n = scn.recs.len();
             scn.recs.push((900 + i, format!("{} {} {}", r.pick(&v.func), w, pre), 7));
             scn.recs.push((1900 + i, format!("{} {}", w, r.pick(&v.func)), 3));
-            scn.limit = scn.limit.max(n + 2);
+            // "<one-letter function word> … <long inflected word>" ("A Walk Among the Tombstones"): the short word can be
+            // absorbed into a joined match with the last word
+            let ones: Vec<&String> = v.func.iter().filter(|f| f.chars().count() == 1).collect();
+            if !ones.is_empty() {
+                let suffix = match code { "en" => *r.pick(&["s", "es", "ies", "ings"]), "de" => *r.pick(&["en", "es", "ungen"]), "ru" => *r.pick(&["ы", "ов", "ами"]), _ => *r.pick(&["s", "es"]) };
+                scn.recs.push((2900 + i, format!("{} {} {}{}", r.pick(&ones), v.word(r), w, suffix), 5));
+                scn.recs.push((3900 + i, format!("{} {}{}", r.pick(&ones), w, suffix), 4));
+            }
+            scn.limit = scn.limit.max(n + 4);
         }
         let st = scn.build();
         for (id, title, _) in &scn.recs {
